@@ -353,6 +353,16 @@ Example C09_dump_load_example :
     /\ List.length (l_heap st) = 8%nat.
 Proof. exact ex_dump_load. Qed.
 
+(* SCOPE of the serialisation theorems.  The registry theorems (C09_dump_load_iso, C09_sharing_preserved,
+   C09_loaded_state_complete ...) say that what _to_dict writes comes back as one isomorphic object graph;
+   that ALL of an object's state is written is the separate statement C09_state_complete below, and it
+   is claimed for the 15 classes of acnportal.acnsim that define (or inherit complete) _to_dict /
+   _from_dict for their own attributes.  A subclass that adds attributes WITHOUT its own serialiser is
+   outside it: acnportal.contrib.acnsim.StochasticNetwork inherits ChargingNetwork's methods and loses
+   waiting_queue, early_departure, swaps, never_charged, early_unplug in a round trip — OPEN finding
+   `stochastic-network-json-drops-queue`; the regenerated fact is
+   C09_subclass_unserialised_attributes_refuted in Props/C09_findings_stochastic.v, the witness is
+   replayed on every run.  The generators of the C09 check use ChargingNetwork only. *)
 (* every instance attribute of every serialised class (assigned anywhere in the class or its
    bases) is written by _to_dict under its own name from its own value and restored by _from_dict
    from that key — decided on the lists regenerated from the code *)
